@@ -133,6 +133,14 @@ class Model(HoloPyObject):
         model = cls(**kwargs)
         if model._parameters == parameters:
             model._parameter_names = fields['_parameter_names']
+        elif (len(model._parameters) > len(parameters)
+              and all(par in parameters for par in model._parameters)):
+            # a tie between a scatterer parameter and a theory, optics or
+            # model parameter is not found again by the constructor (the
+            # scatterer's priors are copies); the saved maps hold it
+            model._parameters = parameters
+            model._parameter_names = fields['_parameter_names']
+            model._maps = maps
         else:
             msg = ("Detected inconsistencies when reloading Model. "
                    "It may differ from previously saved object")
